@@ -7,8 +7,12 @@ use crate::rng::Rng;
 
 const IDENTS: [&str; 8] = ["a", "b", "c", "foo", "bar", "_x", "A1", "length"];
 const FUNCS: [&str; 8] = ["length", "sort_by", "max_by", "not_null", "abs", "f", "to_string", "merge"];
-const QIDENTS: [&str; 6] = ["\"a\"", "\"\"", "\"a b\"", "\"\\u00e9\"", "\"\\\"q\\\\\"", "\"日本\""];
-const LITS: [&str; 14] = [
+const QIDENTS: [&str; 12] = ["\"a\"", "\"\"", "\"a b\"", "\"\\u00e9\"", "\"\\\"q\\\\\"", "\"日本\"", "\"(\"", "\")\"", "\"[\"", "\"]}\"", "\"a|b\"", "\"`\""];
+const LITS: [&str; 18] = [
+    "`\"(\"`",
+    "`\")\"`",
+    "`[\"(\", \"]\", \"}\"]`",
+    "`{\"(\": \")\"}`",
     "`18446744073709551615`",
     "`9223372036854775808`",
     "`[9223372036854775807, -9223372036854775808, 10000000000000000000]`",
@@ -24,7 +28,7 @@ const LITS: [&str; 14] = [
     "` [ ] `",
     "`\"\\u00e9\"`",
 ];
-const RAWS: [&str; 6] = ["'s'", "''", "'a\\'b'", "'\\\\'", "'é\n'", "'`\"'"];
+const RAWS: [&str; 18] = ["'s'", "''", "'a\\'b'", "'\\\\'", "'é\n'", "'`\"'", "'('", "')'", "'(('", "')('", "'['", "']'", "'{'", "'}'", "'|'", "','", "'[?'", "'&& ||'"];
 const NUMS: [&str; 8] = ["0", "1", "2", "-1", "-2", "10", "2147483647", "-2147483647"];
 const CMPS: [&str; 6] = ["==", "!=", "<", "<=", ">", ">="];
 
@@ -553,6 +557,45 @@ pub fn operator_twins() -> Vec<String> {
                 }
             }
         }
+    }
+    out
+}
+
+/// Delimiter characters as TEXT: parenthesised groups, multi-selects, filters and calls whose operands are raw
+/// strings, quoted identifiers and literals made of `(`, `)`, `[`, `]`, `{`, `}`, quotes and back-ticks — balanced or
+/// not over the whole expression. Anything that looks for a matching bracket in the characters instead of the
+/// tokens loses count here.
+pub fn bracket_text_case(rng: &mut Rng) -> String {
+    const TEXTS: [&str; 14] = ["(", ")", "((", "))", ")(", "[", "]", "[?", "{", "}", "`", "\"", "(]", "'"];
+    let tok = |rng: &mut Rng| -> String {
+        let t = TEXTS[rng.below(TEXTS.len())];
+        match rng.below(4) {
+            0 => format!("'{}'", t.replace('\'', "\\'")),
+            1 => format!("\"{}\"", t.replace('"', "\\\"")),
+            2 => format!("`\"{}\"`", t.replace('"', "\\\"").replace('`', "\\`")),
+            _ => format!("'{}{}'", t.replace('\'', "\\'"), t.replace('\'', "\\'")),
+        }
+    };
+    let group = |rng: &mut Rng| -> String {
+        let a = tok(rng);
+        match rng.below(9) {
+            0 => format!("({})", a),
+            1 => format!("(a == {})", a),
+            2 => format!("({}.a)", if a.starts_with('"') { a } else { "b".to_string() }),
+            3 => format!("[{}, {}]", a, tok(rng)),
+            4 => format!("{{k: {}}}", a),
+            5 => format!("a[?b == {}]", a),
+            6 => format!("length({})", a),
+            7 => format!("(({}) || ({}))", a, tok(rng)),
+            _ => a,
+        }
+    };
+    let n = 2 + rng.below(3);
+    let mut out = group(rng);
+    for _ in 1..n {
+        let op = [" || ", " && ", " | ", " == ", " != "][rng.below(5)];
+        out.push_str(op);
+        out.push_str(&group(rng));
     }
     out
 }
